@@ -79,6 +79,16 @@ func textLines(ms []Merged) []string {
 	return out
 }
 
+// textLinesWithIgnored is the expected `-f text -show-ignored` output.
+func textLinesWithIgnored(ms []Merged) []string {
+	var out []string
+	for _, m := range ms {
+		out = append(out, fmt.Sprintf("%s:%d:%d: %s [%s] (%s)", m.P.File, m.P.Line, m.P.Col, m.P.Message, strings.Join(m.Names, ","), m.P.Category))
+	}
+	sort.Strings(out)
+	return out
+}
+
 // jsonLines is the expected `-f json` output as a sorted multiset of
 // canonical strings (see canonJSON in check.go).
 func jsonLines(ms []Merged, registered map[string]bool) []string {
